@@ -634,9 +634,26 @@ func ruleA12Copy(r *Run, p *Prog) {
 			}
 			skipsOnSomePath, skipPath = pathExists(f, nil, isReturn, storeTo, emptyEdge)
 		}
+		// the context bytes are the one field UpdateContext rewrites in place: the duplicate needs
+		// its own array (same demand as in the copy-the-receiver shape above)
+		sharesCtx := false
+		if stored && fromSame && isByteSlice(fld.Type()) {
+			eachInstr(f, func(b *ssa.BasicBlock, k int, in ssa.Instruction) {
+				if x, ok := in.(*ssa.Store); ok {
+					if fa, ok := x.Addr.(*ssa.FieldAddr); ok && fieldVar(fa) == fld && resultAllocs[fa.X] {
+						o := originOfSlice(f, x.Val, 0, map[ssa.Value]bool{})
+						if !(len(o.kinds) == 1 && o.kinds["fresh"]) {
+							sharesCtx = true
+						}
+					}
+				}
+			})
+		}
 		var ok bool
 		var d string
 		switch {
+		case sharesCtx:
+			ok, d = false, "Output returns a logger that shares the receiver's "+fld.Name()+" array: UpdateContext on the two loggers writes into the same bytes and corrupts both loggers' events"
 		case stored && fromSame && skipsOnSomePath:
 			ok, d = false, "Output() carries field "+fld.Name()+" over on some paths only: a path returns the new logger without it"+pathHint(p, skipPath)
 		case stored && fromSame:
